@@ -812,31 +812,23 @@ func TestFallbackSingleInstance(t *testing.T) {
 		c := Case{Mode: "fallback", FailAt: -1, Nodes: 1}
 		c.K = rapid.IntRange(2, 8).Draw(t, "k")
 		nt := rapid.IntRange(1, 2).Draw(t, "ntasks")
-		budget := c.K
+		gens := 0
 		for i := 0; i < nt; i++ {
 			l := fmt.Sprintf("t%d", i)
 			task := Task{Kind: "client", Ops: genOps(t, l, 3)}
-			task.Cands = rapid.SliceOfN(rapid.IntRange(0, min(c.K-1, 2)), 0, 5).Draw(t, l+"cands")
-			if nt > 1 {
-				// two callers contend on the generator's mutex while one is parked: each step waits
-				// for the stall detector, so keep these cases away from 100-attempt exhaustion runs
-				for j, o := range task.Ops {
-					if o.Do == "gen" {
-						if budget <= 0 {
-							task.Ops = task.Ops[:j]
-							break
-						}
-						budget--
-					}
-				}
-			}
-			if len(task.Ops) == 0 {
-				task.Ops = []Op{{Do: "gen"}}
-				if nt > 1 && budget < 0 {
-					c.K++
+			task.Cands = rapid.SliceOfN(rapid.IntRange(0, 2), 0, 5).Draw(t, l+"cands")
+			for _, o := range task.Ops {
+				if o.Do == "gen" {
+					gens++
 				}
 			}
 			c.Tasks = append(c.Tasks, task)
+		}
+		if nt > 1 && c.K < gens {
+			// two callers contend on the generator's mutex while one is parked: each step waits
+			// for the stall detector, so keep these cases away from 100-attempt exhaustion runs
+			// (exhaustion of the fallback path is covered by the one-task cases and the probe)
+			c.K = gens
 		}
 		if nt == 1 {
 			n := rapid.IntRange(0, c.K-1).Draw(t, "nseed")
